@@ -10,6 +10,18 @@ from sim.model import Model, ModelError
 
 VIS = {"readout": 2.0, "microwave": 1.0, "flux": 1.0, "reset": 2.0}
 
+
+def vis_durations():
+    """The drawing's own compact durations, as the library defines them (fallback: the documented ones)."""
+    try:
+        d = WORLD.lib.VIS_DURATIONS
+        out = {k.name.lower(): float(v) for k, v in d.items()}
+        if set(out) == set(VIS):
+            return out
+    except Exception:
+        pass
+    return dict(VIS)
+
 MUT_PROPS = {"NEW": ["C01", "C02"], "ADD_OP": ["C01", "C02"], "ADD_OP_IN": ["C01", "C02"], "ADD_SUB": ["C05", "C02"], "COPY": ["C05"],
              "APPLY": ["C06"], "FLATTEN": ["C11"], "NEW_LIB": [], "SET_DUR": ["C03"], "SET_REP": ["C06"],
              "OVR_ENTER": ["C03", "C18"], "OVR_LEAVE": ["C03", "C18"], "SET_INIT": ["C18"]}
@@ -35,6 +47,8 @@ class Feed:
     """Drives the reference model from a quiescent replay (follows the implementation's admissible choices)."""
 
     def __init__(self, boot_durations):
+        from sim import model as _model
+        _model.set_tables(getattr(WORLD, "tables", None))
         self.M = Model(boot_durations)
         self.findings = []
         self.flags = {}
@@ -593,7 +607,7 @@ def plot_oracle(desc, i, st, plot, stats):
     steps = desc["steps"]
     extra = []
     if st.get("compact", True):
-        extra = [{"op": "OVR_ENTER", "cfg": dict(VIS)}]
+        extra = [{"op": "OVR_ENTER", "cfg": vis_durations()}]
     ex, full, feed = q_star(steps, i, {"op": "OBS", "what": "FULL", "c": st["c"]}, extra_steps=extra)
     t = (full.get("TIMES") or {}).get("t")
     ch = (full.get("CHANNELS") or {}).get("ch") or []
